@@ -160,13 +160,21 @@ def second_pass(cases, rust, kinds, wd):
     res = model_decode(ops, wd)
     return dict(zip(idx, res))
 
-def check_encoded(cases, rust, V, wd, layout=True, allow_svcb=True, must_succeed=True, known=None):
+def check_encoded(cases, rust, V, wd, layout=True, allow_svcb=True, must_succeed=True, known=None, lean=None):
     ref = second_pass(cases, rust, {'enc.dns': 'dec.dns', 'enc.rr': 'dec.rr'}, wd)
+    # ... and by the library's own decoder (an output that only a foreign decoder can read is not "transparent")
+    kinds = {'enc.dns': 'dec.dns', 'enc.rr': 'dec.rr'}
+    ops2 = []; idx2 = []
+    for i, (c, r) in enumerate(zip(cases, rust)):
+        if r.startswith('ok ') and c.op.split(' ', 1)[0] in kinds:
+            ops2.append('%s %s' % (kinds[c.op.split(' ', 1)[0]], r[3:])); idx2.append(i)
+    own = dict(zip(idx2, crate_decode(ops2, wd)))
     for i, (c, r) in enumerate(zip(cases, rust)):
         opk = c.op.split(' ', 1)[0]
         if opk not in ('enc.dns', 'enc.rr'): continue
         if r.startswith('err') or r == 'unconstructible':
-            if must_succeed and r.startswith('err'):
+            # "within the wire limits" is decided by the proved model (EncLim.encode_total): it encodes exactly those values
+            if must_succeed and r.startswith('err') and (lean is None or lean[i].startswith('ok')):
                 V.failing.append((i, 'a value within the wire limits failed to encode: ' + r))
             continue
         if not r.startswith('ok '): continue
@@ -183,16 +191,22 @@ def check_encoded(cases, rust, V, wd, layout=True, allow_svcb=True, must_succeed
         if reason is None and layout and opk == 'enc.dns':
             probs, w = strict_check(b, allow_svcb_target_pointer=allow_svcb)
             if probs: reason = 'layout: ' + probs[0]
+        if reason is None:
+            o = own.get(i)
+            if o is None or not o.startswith('ok'):
+                reason = 'the library\'s own decoder does not read the output back: %s' % (o,)
+            elif isinstance(exp, str) and lower_text(sort_mandatory_text(value_of(o))) != exp:
+                reason = 'the library\'s own decoder reads the output back as a different value' 
         if reason:
             k = known(c, r, reason) if known else None
             if k: V.known.append((i, k, reason))
             else: V.failing.append((i, reason))
 
 def o_C05(cases, rust, lean, V, wd):
-    check_encoded(cases, rust, V, wd)
+    check_encoded(cases, rust, V, wd, lean=lean)
 
 def o_C06(cases, rust, lean, V, wd):
-    check_encoded(cases, rust, V, wd)
+    check_encoded(cases, rust, V, wd, lean=lean)
 
 def cost_bound(n):
     return 304 * n + 304
@@ -211,11 +225,14 @@ def o_C07(cases, rust, lean, V, wd):
             V.failing.append((i, 'examined %d octets for a %d-octet input (bound %d)' % (cost, n, cost_bound(n))))
 
 def known_C08(c, r, reason):
+    """a recorded finding is the value class AND the way it fails (so that a different failure of the same class is reported)"""
     t = c.tag
-    if t.startswith('rcode') and int(t[5:]) > 15: return 'K3'
-    if t.startswith('private') and int(t[7:]) in (0, 1, 2, 3, 4, 5, 6, 65535): return 'K4a'
-    if t == 'alias-params': return 'K4b'
-    if t == 'gpos-empty': return 'K4c'
+    diff = reason.startswith('output decodes to a different value')
+    unread = reason.startswith('output not readable by the reference decoder')
+    if t.startswith('rcode') and int(t[5:]) > 15 and diff: return 'K3'
+    if t.startswith('private') and int(t[7:]) in (0, 1, 2, 3, 4, 5, 6, 65535) and (diff or unread): return 'K4a'
+    if t == 'alias-params' and diff: return 'K4b'          # parameters silently dropped; anything else (e.g. parameters WRITTEN in alias form) is new
+    if t == 'gpos-empty' and unread and 'GPOS' in reason: return 'K4c'
     return None
 
 def o_C08(cases, rust, lean, V, wd):
@@ -436,6 +453,11 @@ def o_C16(cases, rust, lean, V, wd):
 
 def o_C17(cases, rust, lean, V, wd):
     check_encoded(cases, rust, V, wd, layout=False)
+    api = [i for i, c in enumerate(cases) if c.op.startswith('api.')]
+    if api:
+        V2 = Verdicts()
+        o_C12([cases[i] for i in api], [rust[i] for i in api], [lean[i] for i in api], V2, wd)
+        V.failing += [(api[j], r) for j, r in V2.failing]
     for i, (c, r, l) in enumerate(zip(cases, rust, lean)):
         if c.op.startswith('dec.rr') and cmp_accept(r, l) is False and not r.startswith('panic'):
             if r.startswith('ok'): V.failing.append((i, 'address-prefix item accepted although the RFC form rejects it (%s)' % l))
